@@ -149,6 +149,18 @@ func runC03(c *Ctx) {
 			}
 		}
 	}
+	// unsigned Response without Destination (assertion signed): each field again
+	for _, f := range fields {
+		if f.name == "destination" {
+			continue
+		}
+		for k := range variantNames {
+			d := fresh(cfg, false)
+			d.rs.Dest = nil
+			f.apply(d, cfg, k)
+			emit(cfg, d, map[string]string{"class": "single-no-destination", "f1": f.name, "v1": variantNames[k]})
+		}
+	}
 	// pairs of fields
 	for i := 0; i < len(fields); i++ {
 		for j := i + 1; j < len(fields); j++ {
